@@ -67,3 +67,48 @@ package learn
 //@   ensures[C20 opens-the-decoded-envelope] ncalls("hybridDecrypt") == 1 ==> base(callarg("hybridDecrypt", 1, 1)) == base(callres("(*Encoding).DecodeString", 1, 0)) && len(callarg("hybridDecrypt", 1, 1)) == len(callres("(*Encoding).DecodeString", 1, 0)) && callarg("hybridDecrypt", 1, 0).(*rsa.PrivateKey) == callres("parsePrivateKey", 1, 0).(*rsa.PrivateKey)
 //@   ensures[C20 returns-what-was-opened] err == nil ==> ncalls("hybridDecrypt") == 1 && pt == string(callres("hybridDecrypt", 1, 0))
 //@   modifies class crypto.
+
+// ---- answer verification is exact: a multiple-choice answer key is accepted exactly when the marked choices are
+// the choices whose output equals the question's output ----
+
+//@ global ErrWrongAnswer != nil
+
+//@ func (a Answer) correctAnswerIndices() (m map[int]bool)
+//@   noverify the letters of the answer key as indices (a = 0, b = 1, ...)
+//@   ensures m != nil
+//@   modifies nothing
+
+//@ func (a Answer) correctAnswers() (s string)
+//@   noverify message text
+//@   modifies nothing
+
+//@ func generateAnserOutputs(renderers []Renderer) (out []string)
+//@   noverify renders every answer choice (runs evy sources, caches their output)
+//@   modifies class learn.evySource.output
+
+//@ iface (r Renderer) RenderOutput() (s string)
+//@   trusted
+//@   modifies class learn.evySource.output
+
+//@ func indexToLetter(i int) (s string)
+//@   noverify message text
+//@   modifies nothing
+
+//@ func (m *configurableModel) Filename() (s string)
+//@   noverify message text
+//@   opt nilrecv true
+//@   modifies nothing
+
+//@ func (m *QuestionModel) verifyChoiceMatch(answer Answer) (err error)
+//@   props C20
+//@   requires m.Question != nil
+//@   let marks = callres("(Answer).correctAnswerIndices", 1, 0)
+//@   let outs = callres("generateAnserOutputs", 1, 0)
+//@   let q = callres("(Renderer).RenderOutput", 1, 0).(string)
+//@   ensures[C20 exact-over-the-choices] err == nil <==> forall(i, int, 0 <= i && i < len(outs) ==> ((has(marks, i) && marks[i]) <==> q == outs[i])) && forall(i, int, has(marks, i) && marks[i] ==> 0 <= i && i < len(outs))
+//@   ensures[C20 marked-letters-exist] err == nil ==> forall(i, int, has(marks, i) && marks[i] ==> 0 <= i && i < len(outs))
+//@   ensures[C20 wrong-answer-error] err != nil ==> wraps(err, ErrWrongAnswer)
+//@   modifies class learn.evySource.output
+//@   loop 1 invariant forall(k, int, seen(k) && has(correctByIndex, k) && correctByIndex[k] ==> 0 <= k && k < len(outputs))
+//@   loop 2 invariant -1 <= rangeindex && rangeindex < len(outputs) && forall(i, int, 0 <= i && i <= rangeindex ==> ((has(correctByIndex, i) && correctByIndex[i]) <==> generated == outputs[i]))
+//@   loop 2 invariant forall(k, int, has(correctByIndex, k) && correctByIndex[k] ==> 0 <= k && k < len(outputs))
